@@ -52,6 +52,22 @@ CHECKS["C02"] = dict(
   text="Every expression tree of the stated families (1-2 leaves quick, 3 thorough; 65 atoms of every filter kind incl. tags with pending streams and garbage bits, marks, services, data filters on raw payload and on cached converter output with selectors) is parsed and searched over every layout of a 12-stream population on 1-3 (thorough up to 5 layouts) stacked index files in which some ids also exist as older, different, shadowed versions; x 13 (thorough 25) sort key lists x 12 (limit, page) pairs x id restriction. The result must contain no stream twice, only members of the denoted set in their newest version, have the key sequence of the sorted truth cut to the page, and the more flag must equal 'further matches exist'. The unpaged id-sorted search is judged first; pages of a query whose unpaged result is already wrong are not judged separately.",
   note="Quick uses a fixed 6-combination design per query over (layout, sort, page, mask), thorough the full product. Ties across a page edge may resolve either way. Sub-queries and grouping are not enumerated. The condition-struct evaluator of C03 is validated here against the engine on every distinct normal form met.")
 
+CHECKS["C15"] = dict(
+  category="model_checking", engine="E1-bfs", design_ref="3/C15",
+  technique="explicit-state BFS over store/invalidate/reset/reopen sequences on the real cache file with a map reference model, plus every truncation length of every reached file",
+  text="Breadth-first exploration (quick depth 3 over 42 ops, thorough depth 4-5 plus a second BFS with a 16 MiB list so that run-time compaction triggers) of store(id, list) for 11-13 chunk lists (server-first, same-direction runs, content types on any subset, equal/decreasing times, 2-byte varints, empty list, zero-length chunk), the 7 invalidate masks, reset and reopen on a real cache file over a real 3-stream index. After every transition Contains, StreamCount, Data and DataForSearch are compared with a Go map; the canonical state includes the file layout so different layouts of one content are separate states. For every distinct reached file every truncation length is opened with NewCacheFile and must serve exactly the newest complete, not invalidated record per id.",
+  note="Timestamps are compared to the microsecond; file layout is not compared. Scratch files live in /dev/shm when available. A memory guard abandons the run (harness error) if the implementation allocates from garbage sizes.")
+CHECKS["C05"] = dict(
+  category="model_checking", engine="E4-enum", design_ref="3/C05",
+  technique="deviation-bounded exhaustive enumeration of renderings of generated conversations (split, overlap, swap, retransmit, equal timestamps, interleave, cut into files, batching) imported by the real builder, compared with the generator's ground truth",
+  text="20 conversation sets (TCP v4/v6 with handshake and FIN/RST, server-first, empty ACKs, UDP v4/v6, interleaved flows, colliding ports, 4-tuple reuse, idle gaps, snapshot-sized fillers) are rendered into pcap files with correct sequence numbers and checksums; every rendering with <=1 (thorough <=2) deviations x every cut into two files x batching is imported through builder.FromPcap exactly as the service does, and the visible streams (newest index wins) must be one per conversation with exact endpoints, protocol, per-direction bytes, order of direction runs (where the deviation does not reorder across a direction change) and packet references inside the conversation.",
+  note="gopacket's reassembler, libpcap and the generator (validated: every default rendering passes) are the trusted base; IP fragmentation, SYN reordering and data after RST are not generated.")
+CHECKS["C08"] = dict(
+  category="model_checking", engine="E4-enum", design_ref="3/C05",
+  technique="exhaustive enumeration of import histories (ordered set partitions x permutations x restarts x snapshot presence) over generated capture file sets, differential oracle against the one-shot chronological import",
+  text="For 288 (thorough 1551) capture file sets of <=3 files obtained by cutting the C05 conversation sets, every ordered partition into import batches, every arrival order (also out of chronological order), with and without a builder restart between batches (thorough: with and without the snapshot file for captures large enough to create snapshots) is imported through the real builder, feeding FromPcap the accumulated readers like the service does. The canonical visible set (streams keyed by endpoints and first packet, ids ignored) must equal that of the one-shot chronological import; along every history an id keeps denoting the same conversation and no conversation has two visible ids.",
+  note="Same trusted base as C05. Snapshot histories cost 1.4-2 s per import and are limited to 4 sets.")
+
 NOT_YET = {}
 
 def main():
